@@ -9,6 +9,8 @@ import LogicaModel.CQ
 import LogicaModel.TypeSolve
 import LogicaModel.Format
 import LogicaModel.Scan
+import LogicaModel.Imports
+import LogicaModel.Checks
 /-! Request handlers of the line-protocol driver (executable definitions of the models only). -/
 open Lean
 
@@ -310,6 +312,27 @@ def handleScan (j : Json) : Except String Json := do
   return Json.mkObj [("py", Json.arr evs.toArray), ("py_rc", rcJson (Scan.Py.removeComments cs)),
                      ("cpp_rc", rcJson (Scan.Cpp.removeComments cs))]
 
+/-! ### Imports: file prefixes -/
+def handleImports (j : Json) : Except String Json := do
+  let files ← j.getObjValAs? (Array (Array String)) "files"
+  match Imports.assign (files.toList.map Array.toList) [] with
+  | some ps => return Json.arr (ps.map Json.str).toArray
+  | none => return Json.null
+
+/-! ### Checks: decision logic of compile-time checks -/
+def handleChecks (j : Json) : Except String Json := do
+  let preds ← j.getObjValAs? (Array String) "preds"
+  let anns ← j.getObjValAs? (Array (Array String)) "annotations"
+  let rules ← j.getObjValAs? (Array Json) "rules"
+  let rl ← rules.toList.mapM fun r => do
+    let p ← (← r.getArrVal? 0).getStr?
+    let d ← (← r.getArrVal? 1).getBool?
+    pure (p, d)
+  let a := Checks.checkAnnotated preds.toList (anns.toList.map fun x => (x.getD 0 "", x.getD 1 ""))
+  let d := Checks.checkDistinct [] rl
+  return Json.mkObj [("annotated", match a with | some (x, y) => Json.arr #[Json.str x, Json.str y] | none => Json.null),
+                     ("distinct", match d with | some p => Json.str p | none => Json.null)]
+
 def handle (j : Json) : Except String Json := do
   let op ← str j "op"
   if ["strlit", "lex", "useflags", "buildflags"].contains op then handleEscape op j
@@ -321,6 +344,8 @@ def handle (j : Json) : Except String Json := do
   else if op == "cq" then handleCQ j
   else if op == "tysolve" then handleTySolve j
   else if op == "scan" then handleScan j
+  else if op == "import_prefixes" then handleImports j
+  else if op == "checks" then handleChecks j
   else if ["fmt_function", "fmt_infix"].contains op then handleFormat op j
   else throw ("unknown op " ++ op)
 
